@@ -9,9 +9,9 @@ From Coq Require Import ZArith QArith Qround List.
 Import ListNotations.
 Local Open Scope Q_scope.
 
-Definition piQ : Q := 3141592653589793238462643383279502884197 # 1000000000000000000000000000000000000000.
-(* sqrt(2 pi) to 39 digits *)
-Definition sq2piQ : Q := 2506628274631000502415765284811045253007 # 1000000000000000000000000000000000000000.
+Definition piQ : Q := 884279719003555 # 281474976710656.        (* the double nearest to pi; |error| < 1.3e-16 *)
+(* the double nearest to sqrt(2 pi); relative error < 1.2e-16 *)
+Definition sq2piQ : Q := 5644425081792261 # 2251799813685248.
 
 Local Open Scope Z_scope.
 Definition S64 : Z := 72057594037927936.                     (* 2^56 *)
